@@ -537,6 +537,13 @@ enum UnitKind {
     Counts { lo: usize, hi: usize },
     /// disk route, d = 0, sequences
     Disk,
+    /// polygons: an outer square with one small hole (unit square or triangle, both orientations given, at every
+    /// position of a 3 x 3 grid) translated far from the origin (offsets up to 2^40 and odd ones): the hole is tiny
+    /// against the magnitude of its coordinates
+    OffsetRings,
+    /// multi-vertex measured shapes whose measures are [real, no-data, no-data, ..] resp. [no-data, .., real], with
+    /// every single deviation on top (so that e.g. real, NaN, no-data occurs in every order)
+    MPatterns,
 }
 
 struct Tables {
@@ -649,6 +656,12 @@ fn units(which: Which, tier: Tier, t: &Tables) -> Vec<Unit> {
             ty,
             kind: UnitKind::Disk,
         });
+        if ty.family() == Family::Polygon {
+            u.push(Unit { ty, kind: UnitKind::OffsetRings });
+        }
+        if ty.carries_m() && ty.family() != Family::Point {
+            u.push(Unit { ty, kind: UnitKind::MPatterns });
+        }
     }
     u
 }
@@ -806,6 +819,47 @@ fn enumerate_unit(which: Which, t: &Tables, u: &Unit, ctx: &mut Ctx, tick: &dyn 
                     for mask in 1u32..(1 << (n + 1)) {
                         go(Case { ty, shapes: tup.iter().map(|i| red[*i].clone()).collect(), ndev: 0, fin_mask: mask, disk: false }, ctx);
                     }
+                }
+            }
+        }
+        UnitKind::OffsetRings => {
+            let offs = [134217728.0f64, 1073741825.0, 1000000000.0, 1099511627776.0, -1000000007.0];
+            let holes: [&[(f64, f64)]; 3] = [&[(0.0, 0.0), (1.0, 0.0), (1.0, 1.0), (0.0, 1.0)], &[(0.0, 0.0), (0.0, 1.0), (1.0, 1.0), (1.0, 0.0)], &[(0.0, 0.0), (1.0, 0.0), (0.0, 1.0)]];
+            for ox in offs {
+                for oy in offs {
+                    for hx in 1..4 {
+                        for hy in 1..4 {
+                            for hole in holes {
+                                let outer: Vec<P4> = [(0.0, 0.0), (0.0, 6.0), (6.0, 6.0), (6.0, 0.0), (0.0, 0.0)].iter().map(|(x, y)| [x + ox, y + oy, 1.0, 2.0]).collect();
+                                let inner: Vec<P4> = hole.iter().map(|(x, y)| [x + hx as f64 + ox, y + hy as f64 + oy, 1.0, 2.0]).collect();
+                                let shape = MShape { ty, parts: vec![MPart { kind: 0, pts: outer }, MPart { kind: 1, pts: inner }] };
+                                go(Case { ty, shapes: vec![shape], ndev: 0, fin_mask: 0, disk: false }, ctx);
+                            }
+                        }
+                    }
+                }
+            }
+        }
+        UnitKind::MPatterns => {
+            let red = lookup(&t.reduced, ty);
+            for base in red.iter() {
+                if base.n_points() < 2 {
+                    continue;
+                }
+                for pattern in 0..2u8 {
+                    let mut s = base.clone();
+                    let n = s.n_points();
+                    let mut k = 0;
+                    for p in s.parts.iter_mut() {
+                        for q in p.pts.iter_mut() {
+                            let real = if pattern == 0 { k == 0 } else { k == n - 1 };
+                            if !real {
+                                q[3] = NO_DATA;
+                            }
+                            k += 1;
+                        }
+                    }
+                    with_devs(std::slice::from_ref(&s), 1, ctx, &mut go);
                 }
             }
         }
@@ -986,7 +1040,7 @@ pub fn check(which: Which, tier: Tier) -> i32 {
             tier,
             level: "model_checking",
             engine: "E2 structure x deviation enumerator on the real ShapeWriter/ShapeReader",
-            rule: "every structure of the builder grammar (per type: vertex counts, part-length vectors, ring templates x declared roles, patch kinds x lengths) x every file sequence (n=1 for all, n=2,3 ordered tuples over the reduced different-size set) x every deviation set of size <= d from the per-dimension float alphabets; plus, for one type per family, EVERY part length from 2 up to the size bound and (Point, PolylineZ) EVERY record count up to the count bound (d = 0), a size ladder of many-part shapes, and every finalize placement around 1-5 writes; (C02) every history over {write a, write b, finalize} up to the fault-history bound x {with, without .shx} x 13 types with every single one-shot fault and every unordered pair of faults (operation k of .shp / .shx fails once): whenever no fault fired in drop, the .shp up to its declared length is well-formed and holds exactly the shapes whose write returned Ok; distinct = hash of all coordinate bit patterns and structure; non-trivial = >=2 records or >=2 parts or >=1 deviation",
+            rule: "every structure of the builder grammar (per type: vertex counts, part-length vectors, ring templates x declared roles, patch kinds x lengths) x every file sequence (n=1 for all, n=2,3 ordered tuples over the reduced different-size set) x every deviation set of size <= d from the per-dimension float alphabets; plus, for one type per family, EVERY part length from 2 up to the size bound and (Point, PolylineZ) EVERY record count up to the count bound (d = 0), a size ladder of many-part shapes, and every finalize placement around 1-5 writes; polygons with a unit hole at every position of a 3x3 grid, given in both orientations, translated by offsets {2^27, 2^30+1, 10^9, 2^40, -(10^9+7)}^2; measured multi-vertex shapes with measures [real, no-data, ..] and [no-data, .., real] under every single deviation; (C02) every history over {write a, write b, finalize} up to the fault-history bound x {with, without .shx} x 13 types with every single one-shot fault and every unordered pair of faults (operation k of .shp / .shx fails once): whenever no fault fired in drop, the .shp up to its declared length is well-formed and holds exactly the shapes whose write returned Ok; distinct = hash of all coordinate bit patterns and structure; non-trivial = >=2 records or >=2 parts or >=1 deviation",
             bounds: json!({
                 "types": 13,
                 "structures_total": nstructs,
